@@ -16,6 +16,15 @@ func R[T any](site int32, p *T) *T {
 	return p
 }
 
+// RN is a scheduling point in front of a use of *p that is NOT recorded for the race detector
+// (array- and struct-typed variables: the use touches one element or field only).
+func RN[T any](site int32, p *T) *T {
+	if sharedOn {
+		sharedSlow(site, uintptr(unsafe.Pointer(p)), 4)
+	}
+	return p
+}
+
 // W marks a write.
 func W[T any](site int32, p *T) *T {
 	if sharedOn {
@@ -85,6 +94,8 @@ func sharedSlow(site int32, addr uintptr, mode int) {
 		return
 	}
 	switch mode {
+	case 4:
+		// scheduling point only
 	case 0:
 		s.recordAccess(t, addr, site, false)
 	case 1:
